@@ -70,6 +70,9 @@ pub struct RunStats {
     /// scenarios run under each descriptor limit (RLIMIT_NOFILE of the worker process)
     #[serde(default)]
     pub fd_limit_scenarios: BTreeMap<String, u64>,
+    /// scenarios run in a process whose /dev/shm, /var/tmp (and /tmp) are private bind mounts
+    #[serde(default)]
+    pub private_mount_scenarios: u64,
     /// caller threads that ran restricted to 1-3 CPUs
     #[serde(default)]
     pub cpu_limited_threads: u64,
@@ -896,6 +899,9 @@ pub fn run(scen: &Scenario, schedule: Schedule, tracing: bool) -> RunOut {
     }
     stats.yield_hits = vec![0; N_SITES];
     stats.yield_preempts = vec![0; N_SITES];
+    if crate::procs::has_private_mounts() {
+        stats.private_mount_scenarios = 1;
+    }
     let st = State {
         rng: Rng::new(derive(scen.seed ^ scen.sched_salt.rotate_left(32), 0x73636864)),
         list,
